@@ -398,6 +398,25 @@ class CheckedCoverageInstrumentation(python3_11.CheckedCoverageInstrumentation):
         instr_index: int,
         instr_original_index: int,
     ) -> None:
+        # LOAD_FAST_AND_CLEAR saves the value of a local that is usually still unbound
+        # (the iteration variable of an inlined comprehension) and a later STORE_FAST
+        # restores it, i.e., unbinds it again. Loading an unbound local pushes NULL, which
+        # crashes the interpreter when passed to the tracer.
+        maybe_unbound = instr.name == "LOAD_FAST_AND_CLEAR" or (
+            instr.name == "STORE_FAST"
+            and any(
+                isinstance(other, Instr)
+                and other.name == "LOAD_FAST_AND_CLEAR"
+                and other.arg == instr.arg
+                for block in cfg.bytecode_cfg
+                for other in block
+            )
+        )
+        value: InstrumentationConstantLoad | InstrumentationFastLoad = (
+            InstrumentationConstantLoad(value=None)
+            if maybe_unbound
+            else InstrumentationFastLoad(name=instr.arg)  # type: ignore[arg-type]
+        )
         instructions = self.instructions_generator.generate_instructions(
             InstrumentationSetupAction.NO_ACTION,
             InstrumentationMethodCall(
@@ -411,7 +430,7 @@ class CheckedCoverageInstrumentation(python3_11.CheckedCoverageInstrumentation):
                     InstrumentationConstantLoad(value=instr.lineno),
                     InstrumentationConstantLoad(value=instr_original_index),
                     InstrumentationConstantLoad(value=instr.arg),  # type: ignore[arg-type]
-                    InstrumentationFastLoad(name=instr.arg),  # type: ignore[arg-type]
+                    value,
                 ),
             ),
             instr.lineno,
